@@ -12,9 +12,11 @@ import (
 	"net/http"
 	"net/http/httptest"
 	"net/netip"
+	"os"
 	"reflect"
 	"sort"
 	"strings"
+	"syscall"
 	"testing"
 	"time"
 
@@ -58,6 +60,9 @@ func c17Variants() []c17Variant {
 		}},
 		{"rdnss-static", func(i *ref.Iface) { i.RDNSS = append(i.RDNSS, T("servers", []string{"2001:db8::54", "2001:db8::53"})) }},
 		{"rdnss-wildcard", func(i *ref.Iface) { i.RDNSS = append(i.RDNSS, T("lifetime", "1m")) }},
+		{"rdnss-wildcard+static", func(i *ref.Iface) {
+			i.RDNSS = append(i.RDNSS, T("servers", []string{"2001:db8::54", "::", "2001:db8::53"}, "lifetime", "2m"))
+		}},
 		{"dnssl", func(i *ref.Iface) { i.DNSSL = append(i.DNSSL, T("domain_names", []string{"B.Example", "a.example"})) }},
 		{"mtu", func(i *ref.Iface) { i.Scalars["mtu"] = 1500 }},
 		{"no-lla", func(i *ref.Iface) { i.Scalars["source_lla"] = false }},
@@ -83,6 +88,7 @@ type c17Case struct {
 	Variants []string `json:"stanzas"`
 	Prepared bool     `json:"prepared"`
 	StateErr bool     `json:"state_read_fails"`
+	ErrKind  string   `json:"state_error,omitempty"` // "" (some error) | enoent | eperm
 	Fwd      bool     `json:"forwarding"`
 	Prom     bool     `json:"debug_prometheus"`
 	PProf    bool     `json:"debug_pprof"`
@@ -132,6 +138,12 @@ func c17Check(c c17Case) (out [][2]string) {
 	st := system.TestState{Forwarding: c.Fwd, Autoconf: false}
 	if c.StateErr {
 		st.Error = errors.New("verif: sysctl read failed")
+		switch c.ErrKind {
+		case "enoent":
+			st.Error = &os.PathError{Op: "open", Path: "/proc/sys/net/ipv6/conf/eth0/forwarding", Err: syscall.ENOENT}
+		case "eperm":
+			st.Error = &os.PathError{Op: "open", Path: "/proc/sys/net/ipv6/conf/eth0/forwarding", Err: syscall.EACCES}
+		}
 	}
 	mac := net.HardwareAddr{2, 0, 0, 0, 0, 1}
 	if c.Prepared {
@@ -181,6 +193,18 @@ func c17Check(c c17Case) (out [][2]string) {
 	}
 	var serr error
 	guard("metrics scrape", func() { serr = mm.constScrape(metrics) })
+	// Looking must not change what is seen: a second scrape right away reports the same.
+	if serr == nil {
+		first := fmt.Sprint(got)
+		for n := range got {
+			got[n] = map[string]float64{}
+		}
+		var serr2 error
+		guard("metrics scrape", func() { serr2 = mm.constScrape(metrics) })
+		if second := fmt.Sprint(got); serr2 != nil || second != first {
+			bad("C17:scrape-changes-state", "a second scrape differs from the first (err=%v):\n  %s\n  %s", serr2, first, second)
+		}
+	}
 	var series map[string]metricslite.Series
 	guard("metrics Series", func() { series, _ = mm.Series() })
 	if serr != nil && series != nil {
@@ -280,6 +304,23 @@ func c17Check(c c17Case) (out [][2]string) {
 		bad("C17:route:/debug/pprof", "/debug/pprof/ status %d with debug.pprof=%t", rec.Code, c.PProf)
 	}
 	rec := get("/_/api/interfaces")
+	if c.StateErr && rec.Code == 200 {
+		// The interface's state cannot be read: no RA can be built for it at this moment,
+		// so an answer that shows one is made up.
+		var body struct {
+			Interfaces []struct {
+				Interface     string          `json:"interface"`
+				Advertisement json.RawMessage `json:"advertisement"`
+			} `json:"interfaces"`
+		}
+		if json.Unmarshal(rec.Body.Bytes(), &body) == nil {
+			for _, bi := range body.Interfaces {
+				if bi.Interface == "eth0" && len(bi.Advertisement) > 0 && string(bi.Advertisement) != "null" {
+					bad("C17:api:made-up-advertisement", "the interface state cannot be read (%v) but the API answered 200 with an advertisement: %s", st.Error, bi.Advertisement)
+				}
+			}
+		}
+	}
 	if !c.Prepared && !c.StateErr && rec.Code == 200 {
 		// Answered before initialisation: the lifetime shown must obey the forwarding rule.
 		var body struct {
@@ -458,7 +499,7 @@ func c17HistoryCheck(order []int, fwd bool) (out [][2]string) {
 func TestVerifC17(t *testing.T) {
 	r := ev.Begin("C17", "enum")
 	defer r.End(t)
-	r.Rule = "cases = configurations (no stanza; each of 16 stanza variants alone: static/wildcard/deprecated prefix and route, static/wildcard RDNSS, DNSSL, MTU, no source LLA, captive portal, PREF64, non-default header; all together; all minus each) x lifecycle {plugins never prepared, prepared through the real Prepare with the NewAddresser seam} x State reads {ok, failing} x forwarding {on,off} x debug.prometheus x debug.pprof; for each: one metrics scrape (constScrape and Memory.Series) and GET /_/api/interfaces, /metrics, /debug/pprof/ on the real crhttp.Handler, under recover; oracle: no panic ever; prepared + readable state => every sample and the JSON equal the reference RA (every option kind rendered); /metrics and /debug/pprof/ are 200 iff enabled, 404 otherwise; plus scrape histories over two advertising interfaces prepared one after the other (scrape after every step): no duplicate sample, and every scrape equals the scrape of a fresh Metrics (history must not matter); non-trivial = configuration has a stanza; distinct = distinct case"
+	r.Rule = "cases = configurations (no stanza; each of 17 stanza variants alone: static/wildcard/deprecated prefix and route, static/wildcard RDNSS, DNSSL, MTU, no source LLA, captive portal, PREF64, non-default header; all together; all minus each) x lifecycle {plugins never prepared, prepared through the real Prepare with the NewAddresser seam} x State reads {ok, failing (some error, ENOENT, EACCES)} x forwarding {on,off} x debug.prometheus x debug.pprof; for each: one metrics scrape (constScrape and Memory.Series) and GET /_/api/interfaces, /metrics, /debug/pprof/ on the real crhttp.Handler, under recover; oracle: no panic ever; prepared + readable state => every sample and the JSON equal the reference RA (every option kind rendered); /metrics and /debug/pprof/ are 200 iff enabled, 404 otherwise; plus scrape histories over two advertising interfaces prepared one after the other (scrape after every step): no duplicate sample, and every scrape equals the scrape of a fresh Metrics (history must not matter); non-trivial = configuration has a stanza; distinct = distinct case"
 	if r.Replay != nil {
 		var c c17Case
 		if err := json.Unmarshal(r.Replay, &c); err != nil {
@@ -505,11 +546,17 @@ func TestVerifC17(t *testing.T) {
 						if !r.Thorough() && (dbg[0] != dbg[1]) && len(vs) > 1 {
 							continue
 						}
-						c := c17Case{Variants: vs, Prepared: prep, StateErr: serr, Fwd: fwd, Prom: dbg[0], PProf: dbg[1]}
-						r.Case(ev.JSON(c), len(vs) > 0)
-						r.Sample(c)
-						for _, v := range c17Check(c) {
-							r.Violation(v[0], v[1], c)
+						kinds := []string{""}
+						if serr && dbg[0] == dbg[1] {
+							kinds = []string{"", "enoent", "eperm"}
+						}
+						for _, k := range kinds {
+							c := c17Case{Variants: vs, Prepared: prep, StateErr: serr, ErrKind: k, Fwd: fwd, Prom: dbg[0], PProf: dbg[1]}
+							r.Case(ev.JSON(c), len(vs) > 0)
+							r.Sample(c)
+							for _, v := range c17Check(c) {
+								r.Violation(v[0], v[1], c)
+							}
 						}
 					}
 				}
